@@ -418,7 +418,8 @@ func propSocks(c SocksCase) (o pbt.Outcome) {
 					o.Failf("panic/target-11", "RunUDPAssociateLoop panicked: %v", r)
 				}
 			}()
-			socks5.RunUDPAssociateLoop(udpConn, apicommon.NewPacketOverStreamTunnel(a), nil)
+			// callers always pass a resolver (socks5.New installs one)
+			socks5.RunUDPAssociateLoop(udpConn, apicommon.NewPacketOverStreamTunnel(a), noResolver{})
 		}()
 		select {
 		case <-done:
@@ -429,6 +430,12 @@ func propSocks(c SocksCase) (o pbt.Outcome) {
 		}
 	}
 	return
+}
+
+type noResolver struct{}
+
+func (noResolver) LookupIP(ctx context.Context, network, host string) ([]net.IP, error) {
+	return nil, fmt.Errorf("no such host %q", host)
 }
 
 type dialerFunc func() (net.Conn, error)
